@@ -30,7 +30,7 @@ type params struct {
 	poison  bool
 	extra   string // none | same | ancestor | descendant   (a second kill from another thread)
 	watch   string // none | early | twice | late | unwatch | parent-watch
-	respawn string // none | onkill-spawn | onkilled-respawn | outsider-actorof
+	respawn string // none | onkill-spawn | onkilled-respawn | outsider-actorof | late-spawn-during-stop (an outside goroutine spawns a top-level actor while the whole system is being stopped)
 	owns    bool   // dying actors own a subscription and a Loop job
 }
 
@@ -329,6 +329,13 @@ func scenario(p params, bounds []int) *vexp.Scenario {
 					}
 				}
 			}
+			if p.respawn == "late-spawn-during-stop" {
+				vrt.Go("late-spawner", func() {
+					if _, err := w.SpawnRoot(&vsys.Script{Name: "late"}); err != nil {
+						x.Logf("late ActorOf: %v", err)
+					}
+				})
+			}
 			w.Sys.Stop()
 			vrt.QuiesceNoTimers()
 			if reg := actor.VerifSys(w.Sys).Registry; len(reg) != 0 {
@@ -410,6 +417,14 @@ func build(tier string) []*vexp.Scenario {
 				}
 			}
 		}
+	}
+	// a spawn racing the kill of its parent (here: the root, through System.Stop), message level and inside package actor
+	for _, sh := range []string{"chain3", "mixed"} {
+		q := params{shape: sh, target: shapes[sh][len(shapes[sh])-1], extra: "none", watch: "none", respawn: "late-spawn-during-stop"}
+		out = append(out, scenario(q, []int{0, 1, 2}))
+		out = append(out, vexp.Split(4, func() *vexp.Scenario {
+			return vexp.Fine(scenario(q, []int{0, 1, 2}), "vivid/internal/actor.", "vivid/internal/mailbox.")
+		})...)
 	}
 	return out
 }
